@@ -19,7 +19,7 @@ func init() {
 	register(&Property{
 		ID:          "C17",
 		Run:         runC17,
-		Explanation: "Decides the structural clauses without which a stored entity cannot come back unchanged: (R1) the copy that connector.Store.PrepareSet persists mentions every exported field of connector.Instance (and of its nested Config), and the processor/pipeline stores encode the instance itself; (R2) the pipeline's unexported status travels through encodableInstance in both directions; (R3) the typed re-decode of connector state covers every connector.Type and refuses unknown ones; (R4) no exported field of a stored struct is hidden from JSON, no unexported field other than the tabled ones exists in stored structs, and the three store key prefixes are distinct constants used by writer and reader alike; (R5) the status a stored Running pipeline is rewritten to at start-up is the one both engines restart.",
+		Explanation: "Decides the structural clauses without which a stored entity cannot come back unchanged: (R1) the copy that connector.Store.PrepareSet persists mentions every exported field of connector.Instance (and of its nested Config), and the processor/pipeline stores encode the instance itself; (R2) the pipeline's unexported status travels through encodableInstance in both directions; (R3) the typed re-decode of connector state covers every connector.Type and refuses unknown ones; (R4) no exported field of a stored struct is hidden from JSON, no unexported field other than the tabled ones exists in stored structs, and the three store key prefixes are distinct constants used by writer and reader alike; (R5) the status a stored Running pipeline is rewritten to at start-up is the one both engines restart. Rules added later (after independent seeded changes and defect hunts) are not all enumerated here: every armed rule is listed with its description, kind and instance count under coverage.rules.",
 		NotDecided:  []string{"byte-exact JSON/base64 round trip of arbitrary values (third-party encoder, run-time values)", "older stored formats beyond the presence of the pre-0.4.1 migration's field coverage", "empty-vs-nil distinctions"},
 		Assumptions: []string{"encoding/json encodes every exported, untagged field and decodes it back into the same field"},
 	})
